@@ -279,6 +279,15 @@ def gen_cases(ctx):
             yield {"k": "refuse", "cls": cls, "platform": platform, "items": items}
             continue
         cubes = build_list(rng)
+        if rng.random() < 0.08:
+            # adjacent hosts whose lower address is odd (not a /31), and the pair that is one
+            base = (_rand_ip(rng) & ~3) | 1
+            cubes += [bits.cube(base, 0), bits.cube(base + 1, 0)] + ([bits.cube(base + 2, 0)] if rng.random() < 0.5 else [])
+        if rng.random() < 0.03:
+            # a long list: a narrow network listed before a wider one with the same first address, among many unrelated hosts
+            start = _rand_ip(rng) & ~0xFF
+            cubes = [bits.cube(start, 3), bits.cube(start, 255)] + cubes[:3] + \
+                    [bits.cube((rng.choice([11, 12, 13]) << 24) | (n << 8) | 1, 0) for n in range(rng.randint(66, 90))]
         texts = [spell(rng, c, platform, cls) for c in cubes]
         if None in texts or not texts:
             continue
@@ -291,7 +300,7 @@ def gen_cases(ctx):
         if cls == "AddressAg" and rng.random() < 0.3:
             case["numbered"] = [0] + rng.sample(range(len(texts)), rng.randint(0, len(texts) - 1))
         yield case
-        if len(texts) <= 5:
+        if len(texts) <= 5 and len(cubes) <= 5:
             perms = list(itertools.permutations(texts))
             if not thorough:
                 perms = rng.sample(perms, min(3, len(perms)))
